@@ -429,6 +429,12 @@ var poolFolders = map[reflect.Type]func(reflect.Value) model.V{
 	reflect.TypeOf(RegT{}): func(rv reflect.Value) model.V {
 		return model.Obj(model.Member{Key: []byte("rx"), Val: model.Int(rv.Field(0).Int())})
 	},
+	reflect.TypeOf(RegPS{}): func(rv reflect.Value) model.V {
+		if rv.Field(0).IsNil() {
+			return model.Obj(model.Member{Key: []byte("ps"), Val: model.Null()})
+		}
+		return model.Obj(model.Member{Key: []byte("ps"), Val: model.Int(rv.Field(0).Elem().Int())})
+	},
 	reflect.TypeOf(FLevel(0)): func(rv reflect.Value) model.V {
 		return model.Str([]byte("level-" + strconv.FormatInt(rv.Int(), 10)))
 	},
